@@ -162,6 +162,24 @@ func ToVal(v *ref.V) *val.Val {
 			return val.Nothing(ToType(v.T.El))
 		}
 		return val.Just(ToType(v.T.El), ToVal(v.P))
+	case ref.KFun:
+		// a pure function value bound in the environment (dynamic callee)
+		fn := v.Fn
+		rt := v.T.Ret
+		return val.Fun(ToType(v.T), func(args ...*val.Val) *val.Val {
+			rargs := make([]ref.Arg, len(args))
+			for i, a := range args {
+				rv, err := FromVal(a, nil)
+				if err != nil {
+					panic(fmt.Errorf("verif: ill-formed argument to a function value: %v", err))
+				}
+				rargs[i] = ref.Arg{V: rv}
+			}
+			if fn == nil || fn.Impl == nil {
+				panic("verif: function value without body was called")
+			}
+			return ToVal(fn.Impl(&ref.Evaluator{}, rt, rargs))
+		})
 	}
 	panic("bridge: cannot convert " + v.T.Canon())
 }
